@@ -752,7 +752,8 @@ static const std::vector<std::string>& mutation_kinds()
 {
     static const std::vector<std::string> k = {"drop-table",   "rename-table", "add-table",   "drop-view",      "rename-view", "add-view",
                                                "add-column",   "drop-column",  "rename-column", "change-type",  "add-notnull", "add-default",
-                                               "drop-index",   "add-index",    "flip-unique", "reorder-columns"};
+                                               "drop-index",   "add-index",    "flip-unique", "reorder-columns",
+                                               "drop-default", "change-default", "drop-notnull", "drop-pk"};
     return k;
 }
 static void prop_c17(const vf::Case& c, Ctx& ctx)
@@ -846,12 +847,43 @@ static void prop_c17(const vf::Case& c, Ctx& ctx)
         else
         {
             // column-level mutations and add-index need a table and one of its columns
+            if (kind == "drop-default" || kind == "change-default" || kind == "drop-notnull" || kind == "drop-pk")
+            {   // few tables declare defaults / NOT NULL: choose among the tables the mutation applies to
+                std::vector<std::vector<std::string>> apt;
+                for (auto& t : tables)
+                    for (auto& cc : rows(db.db, "PRAGMA table_info('" + t[0] + "')"))
+                        if ((kind == "drop-notnull" && cc[3] == "1") || (kind == "drop-pk" && cc[5] != "0") ||
+                            ((kind == "drop-default" || kind == "change-default") && cc[4] != "\x01NULL"))
+                        {
+                            apt.push_back(t);
+                            break;
+                        }
+                tables = apt;
+            }
             if (auto t = pick(tables))
             {
                 auto cols = rows(db.db, "PRAGMA table_info('" + (*t)[0] + "')");
                 if (!cols.empty())
                 {
-                    auto& col = cols[s.below(cols.size())];
+                    size_t ci = s.below(cols.size());
+                    {   // kinds that apply to few columns: take the first applicable column at or after the drawn one (wrapping)
+                        auto applies = [&](const std::vector<std::string>& cc) {
+                            if (kind == "drop-default" || kind == "change-default")
+                                return cc[4] != "\x01NULL";
+                            if (kind == "drop-notnull")
+                                return cc[3] == "1";
+                            if (kind == "drop-pk")
+                                return cc[5] != "0";
+                            return true;
+                        };
+                        for (size_t k = 0; k < cols.size(); ++k)
+                            if (applies(cols[(ci + k) % cols.size()]))
+                            {
+                                ci = (ci + k) % cols.size();
+                                break;
+                            }
+                    }
+                    auto& col = cols[ci];
                     std::string tn = (*t)[0], cn = col[1];
                     if (kind == "add-column")
                     {
@@ -948,6 +980,41 @@ static void prop_c17(const vf::Case& c, Ctx& ctx)
                                         }
                                         desc = "ADD DEFAULT to " + tn + "." + cn;
                                     }
+                                    else if (kind == "drop-default" || kind == "change-default")
+                                    {
+                                        // only columns that declare a default (few: biased towards them below)
+                                        std::smatch m;
+                                        static const std::regex re("\\s+DEFAULT\\s+(\\S+)", std::regex::icase);
+                                        if (col[4] != "\x01NULL" && std::regex_search(part, m, re))
+                                        {
+                                            std::string repl = kind == "drop-default" ? "" : (m[1].str() == "77" ? " DEFAULT 78" : " DEFAULT 77");
+                                            part = m.prefix().str() + repl + m.suffix().str();
+                                            done = true;
+                                        }
+                                        desc = (kind == "drop-default" ? "DROP DEFAULT of " : "CHANGE DEFAULT of ") + tn + "." + cn;
+                                    }
+                                    else if (kind == "drop-notnull")
+                                    {
+                                        std::smatch m;
+                                        static const std::regex re("\\s+NOT\\s+NULL", std::regex::icase);
+                                        if (col[3] == "1" && std::regex_search(part, m, re))
+                                        {
+                                            part = m.prefix().str() + m.suffix().str();
+                                            done = true;
+                                        }
+                                        desc = "DROP NOT NULL of " + tn + "." + cn;
+                                    }
+                                    else if (kind == "drop-pk")
+                                    {
+                                        std::smatch m;
+                                        static const std::regex re("\\s+PRIMARY\\s+KEY(\\s+AUTOINCREMENT)?", std::regex::icase);
+                                        if (col[5] != "0" && std::regex_search(part, m, re))
+                                        {
+                                            part = m.prefix().str() + m.suffix().str();
+                                            done = true;
+                                        }
+                                        desc = "DROP PRIMARY KEY of " + tn + "." + cn;
+                                    }
                                     else if (kind == "reorder-columns")
                                     {
                                         // an equivalent mutant for validators that compare sets: swap this column with its neighbour
@@ -1026,6 +1093,8 @@ static void prop_c17(const vf::Case& c, Ctx& ctx)
     }
     bool effective = !(before == after);
     ctx.label(effective ? "effective-mutant" : "equivalent-mutant");
+    if (effective)
+        ctx.label("effective:" + fam + kind);
     ctx.nontrivial = effective;
     bool inconsistent = false;
     std::string what;
